@@ -1,5 +1,6 @@
 #!/bin/bash
 # usage: try_patch.sh <patch.diff> [Cxx ...]   -- apply the patch to a scratch worktree of /repo HEAD, run the quick checks there, clean up.
+[ -f "$1" ] || { echo "no such patch: $1"; exit 3; }
 P=$(readlink -f $1); shift
 [ -f "$(dirname $P)/patch.rebased.diff" ] && P="$(dirname $P)/patch.rebased.diff"
 WT=$(mktemp -d /tmp/hbv-try.XXXXXX)
